@@ -96,6 +96,11 @@ func New(options ...Option) (*Compiler, error) {
 	// Create a default, empty code object to compile into if the caller didn't
 	// supply one. If the caller did supply one, it may be a situation like the
 	// REPL where compilation is done incrementally, as new code is entered.
+	if c.main != nil {
+		// Function ids must stay unique within the code that is extended: the
+		// code given to WithCode already holds functions numbered from 1
+		c.funcIndex = len(c.main.Flatten()) - 1
+	}
 	if c.main == nil {
 		c.main = &Code{
 			id:      "__main__",
